@@ -59,6 +59,38 @@ def sync_scratch(kind):
     if r.returncode != 0: raise BuildError('rsync failed: ' + r.stderr[-400:])
     return dst
 
+def _content_manifest(src):
+    man = {}
+    for root, dirs, files in os.walk(src):
+        dirs[:] = sorted(d for d in dirs if d not in EXCLUDE)
+        for f in sorted(files):
+            if not f.endswith(('.rs', '.toml', '.lock')): continue
+            p = os.path.join(root, f)
+            if os.path.isfile(p) and not os.path.islink(p):
+                h = hashlib.sha256(); h.update(open(p, 'rb').read()); man[os.path.relpath(p, src)] = h.hexdigest()
+    return man
+
+def freshen(src, target_dir):
+    """Stale-build guard for a cargo target directory that is shared by several scratch workspaces.
+    cargo derives the same crate hashes for workspaces with the same layout and judges freshness by mtime, so a workspace whose
+    files are older than the last build of ANOTHER tree would silently reuse that tree's rlibs (observed: the /repo binary rebuilt
+    after a pruned cache carried the patch of a scratch worktree). Every file whose content differs from what `target_dir` was last
+    built from gets a new mtime; the manifest is written by `freshen_done` only after a successful build."""
+    man = _content_manifest(src); mpath = os.path.join(target_dir, 'verif-manifest.json')
+    try: old = json.load(open(mpath))
+    except Exception: old = None
+    now = time.time()
+    stale = list(man) if (old is None or set(old) - set(man)) else [k for k, v in man.items() if old.get(k) != v]
+    for rel in stale:
+        p = os.path.join(src, rel)
+        if os.path.exists(p): os.utime(p, (now, now))
+    try: os.remove(mpath)
+    except FileNotFoundError: pass
+    return man, mpath
+
+def freshen_done(man, mpath):
+    os.makedirs(os.path.dirname(mpath), exist_ok=True); json.dump(man, open(mpath, 'w'))
+
 def _prune(d, keep=4):
     try: ents = sorted((os.path.getmtime(os.path.join(d, e)), e) for e in os.listdir(d))
     except FileNotFoundError: return
@@ -75,6 +107,7 @@ def mir_dir(log=None):
         src = sync_scratch('mir')
         tmp = out + '.tmp'; shutil.rmtree(tmp, ignore_errors=True); os.makedirs(os.path.join(tmp, 'doc'))
         env = dict(ENV, CARGO_TARGET_DIR=os.path.join(CACHE, 'target-mir'))
+        man, mpath = freshen(src, env['CARGO_TARGET_DIR'])
         for c in CRATES:
             lib = {'common_defs': 'common-defs'}.get(c, c)
             os.utime(os.path.join(src, 'crates', lib, 'src', 'lib.rs'))
@@ -88,6 +121,7 @@ def mir_dir(log=None):
                                 '--document-private-items'], cwd=src, env=env, capture_output=True, text=True)
             if r.returncode != 0: raise BuildError('rustdoc JSON of %s failed:\n%s' % (c, r.stderr[-1500:]))
             shutil.copy(os.path.join(env['CARGO_TARGET_DIR'], 'doc', c + '.json'), os.path.join(tmp, 'doc', c + '.json'))
+        freshen_done(man, mpath)
         open(os.path.join(tmp, 'OK'), 'w').write(json.dumps({'hash': key, 'secs': time.time() - t0}))
         shutil.rmtree(out, ignore_errors=True); os.rename(tmp, out)
         shutil.rmtree(src, ignore_errors=True)
@@ -110,8 +144,14 @@ def compiler_bin():
         with Lock('native'):
             if not os.path.exists(out):
                 src, env = native('native')
+                # The target directory is shared by every scratch workspace, and so is the path of the final `debug/compiler`.
+                # If cargo finds this workspace fresh it does not re-link, and the file there may be the last link of ANOTHER
+                # tree (seen after the binary cache had been pruned). Touching the bin root forces a re-link from this workspace.
+                os.utime(os.path.join(src, 'crates', 'compiler', 'src', 'main.rs'))
+                man, mpath = freshen(src, env['CARGO_TARGET_DIR'])
                 r = subprocess.run(['cargo', 'build', '--offline', '-p', 'compiler', '--bin', 'compiler'], cwd=src, env=env, capture_output=True, text=True)
                 if r.returncode != 0: raise BuildError('compiler build failed:\n' + r.stderr[-1500:])
+                freshen_done(man, mpath)
                 os.makedirs(os.path.dirname(out), exist_ok=True)
                 shutil.copy(os.path.join(env['CARGO_TARGET_DIR'], 'debug', 'compiler'), out)
                 _prune(os.path.join(CACHE, 'bin'))
@@ -130,8 +170,10 @@ def run_driver(name, stdin_text, timeout=600):
                 ddir = os.path.join(SCRATCH, 'native', 'driver'); shutil.rmtree(ddir, ignore_errors=True)
                 shutil.copytree(os.path.join(VERIF, 'driver'), ddir)
                 shutil.copy(os.path.join(src, 'Cargo.lock'), os.path.join(ddir, 'Cargo.lock'))
+                man, mpath = freshen(src, env['CARGO_TARGET_DIR'])
                 r = subprocess.run(['cargo', 'build', '--offline', '--bin', name], cwd=ddir, env=env, capture_output=True, text=True)
                 if r.returncode != 0: raise BuildError('driver build failed:\n' + r.stderr[-2500:])
+                freshen_done(man, mpath)
                 os.makedirs(os.path.dirname(out), exist_ok=True)
                 shutil.copy(os.path.join(env['CARGO_TARGET_DIR'], 'debug', name), out)
     r = subprocess.run([out], input=stdin_text, capture_output=True, text=True, timeout=timeout)
